@@ -1,6 +1,6 @@
 //! `load <inst>*` — drives `dr::Loader` through its public `Consumer` impl (header, instructions, finalize).
 //! `loadbin <hexbytes>` — `dr::load_bytes`.
-use crate::chan::parse::{read_inst, show_inst, show_state};
+use crate::chan::parse::{read_inst, show_inst};
 use rspirv::binary::{Consumer, ParseAction};
 use rspirv::dr;
 
@@ -79,6 +79,27 @@ pub fn load(rest: &str) -> String {
     format!("ok {}", show_module(&l.module()))
 }
 
+pub fn show_parse_err(s: &rspirv::binary::ParseState) -> String {
+    match s {
+        rspirv::binary::ParseState::ConsumerError(e) => match e.downcast_ref::<dr::Error>() {
+            Some(le) => format!("ConsumerError:{}", show_lerr(le)),
+            None => format!("ConsumerError:other:{}", e),
+        },
+        rspirv::binary::ParseState::ConsumerStopRequested => "ConsumerStopRequested".to_string(),
+        rspirv::binary::ParseState::Complete => "Complete".to_string(),
+        rspirv::binary::ParseState::HeaderIncomplete(e) => format!("HeaderIncomplete:{}", crate::chan::dec::err(e)),
+        rspirv::binary::ParseState::HeaderIncorrect => "HeaderIncorrect".to_string(),
+        rspirv::binary::ParseState::EndiannessUnsupported => "EndiannessUnsupported".to_string(),
+        rspirv::binary::ParseState::WordCountZero(o, i) => format!("WordCountZero:{}:{}", o, i),
+        rspirv::binary::ParseState::OpcodeUnknown(o, i, op) => format!("OpcodeUnknown:{}:{}:{}", o, i, op),
+        rspirv::binary::ParseState::OperandExpected(o, i) => format!("OperandExpected:{}:{}", o, i),
+        rspirv::binary::ParseState::OperandExceeded(o, i) => format!("OperandExceeded:{}:{}", o, i),
+        rspirv::binary::ParseState::OperandError(e) => format!("OperandError:{}", crate::chan::dec::err(e)),
+        rspirv::binary::ParseState::TypeUnsupported(o, i) => format!("TypeUnsupported:{}:{}", o, i),
+        rspirv::binary::ParseState::SpecConstantOpIntegerIncorrect(o, i) => format!("SpecConstantOpIntegerIncorrect:{}:{}", o, i),
+    }
+}
+
 pub fn loadbin(rest: &str) -> String {
     let bytes = match crate::util::try_unhex(rest.trim()) {
         Some(b) => b,
@@ -86,12 +107,6 @@ pub fn loadbin(rest: &str) -> String {
     };
     match dr::load_bytes(&bytes) {
         Ok(m) => format!("ok {}", show_module(&m)),
-        Err(s) => match &s {
-            rspirv::binary::ParseState::ConsumerError(e) => match e.downcast_ref::<dr::Error>() {
-                Some(le) => format!("err ConsumerError:{}", show_lerr(le)),
-                None => format!("err ConsumerError:other:{}", e),
-            },
-            _ => format!("err {}", show_state(&Err(s))),
-        },
+        Err(s) => format!("err {}", show_parse_err(&s)),
     }
 }
